@@ -40,3 +40,4 @@ def run(prog, rep):
     from ..rules import r_unit as _runs
     _runs.run_no_static_state(prog, rep)
     _rio2s.run_string_buffers(prog, rep)
+    _rk2.run_getattr(prog, rep)
